@@ -1276,11 +1276,13 @@ def setup(chk: Check):
                     'harness/c06.py: correspondence, exact-rational oracle, PTF writer and the small independent reader',
                     'scipy.interpolate.interpn, pandas, pydantic, tomllib/tomli_w: exercised for real, modelled by hand '
                     '(interval search + multilinear weights in scipy\'s order of operations)']
-    chk.assumptions += ['theorems are over the reals; binary64 effects (a flight level expressed in metres and converted '
-                        'back may move by one ulp) are handled by the oracle with a one-ulp envelope slack and 1e-11 '
-                        'relative node tolerance, bit-equality is demanded where the flight level is given directly',
-                        'well-formed PTF: climb and descent rates >= 1 fpm (a 0 fpm climb entry would be a cruise row '
-                        'for the table format), distinct levels, low < nominal < high mass',
+    chk.assumptions += ['theorems are over the reals; on the binary64 side a tabulated level f given in metres must be answered '
+                        'exactly wherever (f*FL_TO_METERS)/FL_TO_METERS == f; the levels that do not survive that round trip '
+                        'are finding FC06e (matched only when the answer is the one for the round-tripped level); other '
+                        'altitudes must be right for the exact quotient or its binary64 value; bit-equality is demanded where '
+                        'the flight level is given directly',
+                        'well-formed PTF (wf_ptf): climb and descent rates >= 1 fpm, distinct levels, low < nominal < high mass; '
+                        'files with a 0 fpm climb entry are generated too and are finding FC06d',
                         'table cells are finite binary64 numbers (no NaN / inf)']
 
 
